@@ -4,8 +4,10 @@ import (
 	"fmt"
 	"math/bits"
 	"os"
+	"runtime"
 	"strconv"
 	"sync"
+	"sync/atomic"
 
 	"github.com/openacid/low/bmtree"
 )
@@ -77,9 +79,64 @@ func init() {
 	}
 	Exec["bmtree.IndexToPath/session"] = func(a []V) string {
 		h := a[0].I32()
-		ws := make([]uint64, 0, len(a[1].L))
+		idx := make([]int32, 0, len(a[1].L))
 		for _, i := range a[1].L {
-			ws = append(ws, bmtree.IndexToPath(h, i.I32()))
+			idx = append(idx, i.I32())
+		}
+		walk := func() []uint64 {
+			ws := make([]uint64, 0, len(idx))
+			for _, i := range idx {
+				ws = append(ws, bmtree.IndexToPath(h, i))
+			}
+			return ws
+		}
+		ws := walk()
+		if len(idx) >= 64 {
+			// long sessions (consecutive indices): the SAME session is then issued by several goroutines at
+			// once (released together, several rounds); every one of them is an ordinary caller, so each
+			// must get what the lone caller got. The first walk that differs is the observation.
+			for round := 0; round < 4; round++ {
+				const K = 6
+				res := make([][]uint64, K)
+				var ready, done sync.WaitGroup
+				start := make(chan struct{})
+				ready.Add(K)
+				done.Add(K)
+				var arrived int64
+				lockstep := round%2 == 0 // even rounds: all K callers make their j-th call at the same moment
+				for k := 0; k < K; k++ {
+					go func(k int) {
+						defer done.Done()
+						ready.Done()
+						<-start
+						if !lockstep {
+							res[k] = walk()
+							return
+						}
+						out := make([]uint64, 0, len(idx))
+						for j, i := range idx {
+							atomic.AddInt64(&arrived, 1)
+							for spin := 0; atomic.LoadInt64(&arrived) < int64(K*(j+1)); spin++ {
+								if spin&63 == 63 {
+									runtime.Gosched()
+								}
+							}
+							out = append(out, bmtree.IndexToPath(h, i))
+						}
+						res[k] = out
+					}(k)
+				}
+				ready.Wait()
+				close(start)
+				done.Wait()
+				for k := 0; k < K; k++ {
+					for j := range ws {
+						if res[k][j] != ws[j] {
+							return U64s(res[k])
+						}
+					}
+				}
+			}
 		}
 		return U64s(ws)
 	}
@@ -540,6 +597,29 @@ func genC05History(g *Gen) {
 				g.Do("bmtree.IndexToPath/session", L(Int(h), L(rev...)), fmt.Sprintf("session/%s/2^%d/rev%d", c05HB(h), k, len(xs)))
 			}
 		}
+	}
+	// consecutive ascending indices (a pre-order scan of the full tree), long enough for the executor to
+	// issue the same scan from several goroutines at once: a cursor / "next path" shortcut kept between calls
+	for n := 0; n < g.N(8, 60); n++ {
+		h := g.R.Range(5, 24)
+		N := int64(1)<<uint(h+1) - 1
+		ln := int64(g.R.Range(64, 3000))
+		if ln > N {
+			ln = N
+		}
+		b := int64(g.R.U64() % uint64(N-ln+1))
+		if n%4 == 0 {
+			b = 0
+		}
+		if n%4 == 1 {
+			b = N - ln
+		}
+		var xs []string
+		for j := int64(0); j < ln; j++ {
+			xs = append(xs, I(b+j))
+		}
+		g.Stat("hist-session-scan")
+		g.Do("bmtree.IndexToPath/session", L(Int(h), L(xs...)), fmt.Sprintf("session/%s/scan%d", c05HB(h), ln))
 	}
 	// i j i j on random pairs of every height > 4
 	for n := 0; n < g.N(200, 4000); n++ {
